@@ -1,0 +1,38 @@
+//! Counters observed by monitors (feature `verif`). Updated at the exact point where the engine takes the
+//! decision, so that a monitor does not have to infer it from before/after snapshots.
+use std::sync::atomic::{AtomicU64, Ordering};
+
+/// page allocations served from the free list
+pub static ALLOC_FROM_FREE_LIST: AtomicU64 = AtomicU64::new(0);
+/// page allocations that extended the file
+pub static ALLOC_EXTENDING_FILE: AtomicU64 = AtomicU64::new(0);
+/// page allocations that extended the file although the free list was not empty (must stay 0)
+pub static ALLOC_EXTENDING_FILE_WHILE_FREE: AtomicU64 = AtomicU64::new(0);
+/// pages handed to the free list
+pub static PAGES_FREED: AtomicU64 = AtomicU64::new(0);
+
+pub fn snapshot() -> (u64, u64, u64, u64) {
+    (
+        ALLOC_FROM_FREE_LIST.load(Ordering::Relaxed),
+        ALLOC_EXTENDING_FILE.load(Ordering::Relaxed),
+        ALLOC_EXTENDING_FILE_WHILE_FREE.load(Ordering::Relaxed),
+        PAGES_FREED.load(Ordering::Relaxed),
+    )
+}
+
+#[inline]
+pub(crate) fn on_alloc(from_free_list: bool, free_list_nonempty: bool) {
+    if from_free_list {
+        ALLOC_FROM_FREE_LIST.fetch_add(1, Ordering::Relaxed);
+    } else {
+        ALLOC_EXTENDING_FILE.fetch_add(1, Ordering::Relaxed);
+        if free_list_nonempty {
+            ALLOC_EXTENDING_FILE_WHILE_FREE.fetch_add(1, Ordering::Relaxed);
+        }
+    }
+}
+
+#[inline]
+pub(crate) fn on_free() {
+    PAGES_FREED.fetch_add(1, Ordering::Relaxed);
+}
